@@ -40,6 +40,12 @@ def main():
         return chk.finish()
     except core.Infra as e:
         print('INFRASTRUCTURE: %s' % e, flush=True)
+        # a coverage guard of the check ("the generator no longer reaches branch X") that fires AFTER the
+        # correspondence was already found broken or a violation was already recorded is a consequence of the
+        # deviation, not a defect of the check: report what was found instead of hiding it behind exit 2
+        if chk.broken() or getattr(chk, 'violations', None):
+            chk.notes.append('stopped early by a coverage guard of the check: %s' % e)
+            return chk.finish()
         chk.cleanup()
         return 2
     except Exception as e:
